@@ -17,7 +17,7 @@ RULE = (
     "traversal start, alone or as the faces of a generated hull/lat-lon mesh (mixed sizes with padding). Oracle: corners, "
     "64 slerp samples and the analytic apex of every edge must lie in the reported box (2e-8 rad, twice the library's ERROR_TOLERANCE); latitude bounds must be "
     "attained (1e-7 rad); the longitude interval must be the shortest cover of the corner longitudes (longitude is monotone "
-    "along a great-circle arc that misses the poles) or the full circle when a pole is strictly inside. Non-trivial = not "
+    "along a great-circle arc that misses the poles) or the full circle when a pole is strictly inside. A quarter of the grids also carry Cartesian node coordinates on a sphere of radius 1, 2.5 or 6371229. Non-trivial = not "
     "(a face away from poles and meridians whose latitude extremes are all at corners); distinct by case hash."
 )
 ASSUMPTIONS = [
